@@ -930,17 +930,17 @@ class MapOverlap(MapPartitions):
     @functools.cached_property
     def _meta(self):
         meta = self.operand("meta")
-        args = [self.frame._meta] + [
-            arg._meta if isinstance(arg, Expr) else arg
-            for arg in self.operands[len(self._parameters) :]
-        ]
+        parent_meta = self.kwargs.pop("parent_meta", None)
+        # collections passed as keywords are operands (see ``_split_args``)
+        args, kwargs = self._split_args()
+        args = [args[0]] + args[4:]  # without func, before, after
         return _get_meta_map_partitions(
-            args,
+            [arg._meta if isinstance(arg, Expr) else arg for arg in args],
             [self.dependencies()[0]],
             self.func,
-            self.kwargs,
+            {k: v._meta if isinstance(v, Expr) else v for k, v in kwargs.items()},
             meta,
-            self.kwargs.pop("parent_meta", None),
+            parent_meta,
         )
 
     @functools.cached_property
